@@ -433,6 +433,10 @@ fn c14_backend<F: Function + MathFunction + Clone>(
                 sv2.insert(c.vars[*k].index().unwrap(), values[*k]);
             }
         }
+        // unrelated extra variables must not make up for the missing one
+        for (e, x) in extras.iter().enumerate() {
+            sv2.insert(x.index().unwrap(), -555.0 - e as f32);
+        }
         rep.count("fault.missing_var", 1);
         let want = c.vars[miss].index().unwrap();
         let r = rt::catch(|| {
